@@ -2,6 +2,7 @@ import EventppVerif.CL.Machine
 import Driver.QDriver
 import Driver.UtilDriver
 import Driver.ConcDriver
+import Driver.HeterDriver
 import EventppVerif.Util.Wrappers
 import EventppVerif.Util.Removers
 /-
@@ -250,6 +251,9 @@ def main (args : List String) : IO Unit := do
     return
   if mode = "anyid" then
     UD.anyidMain lines
+    return
+  if mode = "heter" then
+    HD.main lines
     return
   if mode = "conc" then
     CD.main lines
